@@ -1896,6 +1896,11 @@ class Cluster(object):
         if self.is_shutdown:
             return
 
+        if self.metadata.get_host(host.endpoint) is not host:
+            # a stale Host object: the host was removed (and possibly added again) meanwhile
+            log.debug("Ignoring up status of node %s, which is no longer part of the cluster", host)
+            return
+
         log.debug("Waiting to acquire lock for handling up status of node %s", host)
         with host.lock:
             if host._currently_handling_node_up:
